@@ -29,8 +29,9 @@ type Options struct {
 	Gen *ep.GenConfig
 	// GasLimit is the genesis (and therefore block) gas limit, default 30M.
 	GasLimit uint64
-	// NoBlobs / NoSetCode / NoWithdrawals / NoUncles switch features off.
-	NoBlobs, NoSetCode, NoWithdrawals, NoUncles bool
+	// NoBlobs / NoSetCode / NoWithdrawals / NoUncles / NoStorage (no genesis storage
+	// for generated contracts) switch features off.
+	NoBlobs, NoSetCode, NoWithdrawals, NoUncles, NoStorage bool
 }
 
 func (o *Options) defaults() {
@@ -167,8 +168,24 @@ func Draw(rt *rapid.T, opt Options) *World {
 			return ether(1)
 		}
 	}
+	// Generated contracts start with some of the slots their SSTOREs aim at (0, 1, 2,
+	// 2^256-1 and the sink slot 3), so that stores delete and overwrite committed
+	// values (storage trie nodes collapse, refunds arise).
+	slots := []common.Hash{{}, {31: 1}, {31: 2}, {31: 3}, common.MaxHash}
 	for i, c := range prog.Contracts {
-		alloc[progAddrs[i]] = types.Account{Nonce: 1, Code: c.Code, Balance: contractBal("prog-balance")}
+		acc := types.Account{Nonce: 1, Code: c.Code, Balance: contractBal("prog-balance")}
+		if !opt.NoStorage {
+			acc.Storage = map[common.Hash]common.Hash{}
+			for _, k := range slots {
+				switch pickW(rt, "prog-slot", []int{2, 2, 1}) {
+				case 1:
+					acc.Storage[k] = common.Hash{31: 1}
+				case 2:
+					acc.Storage[k] = common.Hash{0: 0x80, 31: 0x07}
+				}
+			}
+		}
+		alloc[progAddrs[i]] = acc
 	}
 	for j := range w.Scenarios {
 		alloc[scAddrs[j]] = types.Account{Nonce: 1, Code: w.ScenarioCode[j], Balance: contractBal("scenario-balance")}
